@@ -22,8 +22,8 @@ Definition mobs := (nat * nat * nat * list N)%type.   (* residue numbers in N: t
 Record obs := mkObs {
   o_tab : list mobs;                        (* the distinct molecules seen; the fields below index it *)
   o_iter : robs (list nat);                 (* list(System) *)
-  o_len : nat;                              (* len(System) *)
-  o_comp : list (nat * nat);                (* System.composition items *)
+  o_len : robs nat;                         (* len(System) *)
+  o_comp : robs (list (nat * nat));         (* System.composition items *)
   o_items : list (Z * robs nat);            (* System[i] *)
   o_slices : list ((option Z * option Z * option Z) * robs (list nat))   (* System[a:b:c] *)
 }.
@@ -94,9 +94,8 @@ Definition tops_of (tops : list top) (ord : list nat) : res (list top) :=
 Definition chk_views (f : gfile) (v : groview) (st : sys) (o : obs) : nat :=
   first_bad (
     cmp_list_t f st (o_tab o) (sys_iter v st) (o_iter o) ::
-    (if sys_len st =? o_len o then AGREE else DISAGREE) ::
-    (match composition st with Ok c => if comp_agree c (o_comp o) then AGREE else DISAGREE
-                             | Err _ => ERRMISMATCH end) ::
+    cmp_res Nat.eqb (Ok (sys_len st)) (o_len o) ::
+    cmp_res comp_agree (composition st) (o_comp o) ::
     map (fun io => match resolve (o_tab o) (snd io) with
                    | Some o' => cmp_res mobs_eqb (let* x := sys_getitem v st (fst io) in describe f st x) o'
                    | None => 9 end)
